@@ -24,6 +24,10 @@
 //	      changed in place below the root - a scalar overwritten through the pointer Get returned,
 //	      Set on a nested container - marshals, at the root and at every level on the path, as the
 //	      value it holds now.
+//	(vi)  reuse (reuse.go): a conformant encoding decoded through a typed UnmarshalBinary into a target that
+//	      is not fresh (zero value, constructor / typed conversion with a value, Discovery, after earlier
+//	      successful and failed decodes on the same object) gives the value of those bytes, Size() = bytes
+//	      consumed, and re-marshals as that value.
 //
 // Non-empty strict arrays form their own family: a failure that disappears when
 // they are replaced by null is keyed ".../strict-array-nonempty"; a failure
@@ -352,7 +356,8 @@ func run(c *hl.Ctx) {
 		"string contents are fixed per length class; number alphabet is the listed bit patterns",
 		"strict-array elements of API-built trees get keys by a fixed rotation (the API demands keys)",
 		"retention: histories run on one goroutine (concurrent marshalling is outside this family); a caller that only reads the returned slice is entitled to find it unchanged; values whose fresh encoding is already outside the specification (non-empty strict arrays, known finding) are judged for stability only",
-		"mutate: a container is an ordered map (Set on an absent key appends a pair; Set on a present key replaces the value, in place or moved to the end; assigning through the pointer Get returned changes that scalar and nothing else); while the library uses its keyed strict-array layout (known finding), values holding a non-empty strict array are presented and read back in that layout by the harness's own codec (mutate.go), everything else by the specification codec")
+		"mutate: a container is an ordered map (Set on an absent key appends a pair; Set on a present key replaces the value, in place or moved to the end; assigning through the pointer Get returned changes that scalar and nothing else); while the library uses its keyed strict-array layout (known finding), values holding a non-empty strict array are presented and read back in that layout by the harness's own codec (mutate.go), everything else by the specification codec",
+		"reuse: the zero value of an exported type (new(amf0.String), &amf0.Object{}) is a usable empty target, as it is in the unchanged library; a container that already holds properties may keep them when decoded into again (the unchanged library appends; neither code nor comments say otherwise), so for such targets the result is only required to be new, prior++new or prior merged with new, consistently marshalled and sized; failing pre-steps are only required to fail, what they leave behind in a container is read off a twin")
 
 	full, small := ref.DefaultLeaves(), ref.SmallLeaves()
 	keys4, keys2 := ref.DefaultKeys(), []string{"a", ""}
@@ -378,6 +383,7 @@ func run(c *hl.Ctx) {
 	checkMarkers(c, &idx)
 	checkRetentionFamily(c, &idx)
 	checkMutateFamily(c, &idx)
+	checkReuseFamily(c, &idx)
 
 	maxN := 0
 	for _, p := range profs {
@@ -475,6 +481,22 @@ func replay(c *hl.Ctx, raw json.RawMessage) {
 			panic(err)
 		}
 		checkMutate(c, cs, keyedStrictLayout())
+	case "reuse":
+		var cs reuseCase
+		if err := json.Unmarshal(raw, &cs); err != nil {
+			panic(err)
+		}
+		keyed := keyedStrictLayout()
+		var prior *ref.Tree
+		if cs.Kind.IsContainer() {
+			var ok bool
+			if prior, ok = reuseObservePrior(cs, keyed); !ok {
+				c.Eval()
+				c.Add("reuse_histories_not_judged", 1)
+				return
+			}
+		}
+		checkReuse(c, cs, keyed, prior)
 	case "marker":
 		var cs markerCase
 		if err := json.Unmarshal(raw, &cs); err != nil {
